@@ -1,18 +1,29 @@
 (** C16 -- refutations: every listed defect is a genuine counterexample of the faithful model (so the list in
-    Known.v excludes nothing that actually holds).
+    Known.v excludes nothing that actually holds), for the probe name "MyCol".
     Compiled separately from C16.v: when sqlframe repairs a defect its refutation stops compiling, which the check
-    reports as "no longer refuted" without raising an alarm.
-
-    History: on the original tree 27 keys were listed and refuted here, with explicit witnesses for the five root
-    causes (log1p_from_log: 'c' + Column is Column.__radd__ -> string literal; the slice alternatives and array_repeat:
-    x if isinstance(x, Column) else lit(x); overlay: lit(pos)/lit(len); date_sub_by_date_add: days * Column).  All five
-    were repaired in /repo, the list is empty, and the former witnesses are now the positive example [C16_repaired]
-    in C16.v. *)
+    reports as "no longer refuted" without raising an alarm. *)
 From SF Require Import C16.Fexp C16.Known.
 From Gen Require Import C16Table C16Entries.
 From Coq Require Import String List ZArith. Import ListNotations. Open Scope string_scope.
 
 Lemma C16_known_all_refuted :
-  forallb (fun k => refuted gen_prims gen_table "c" k gen_entries) C16_known = true.
+  forallb (fun k => refuted gen_prims gen_table "MyCol" k gen_entries) C16_known = true.
 Proof. vm_compute. reflexivity. Qed.
 Print Assumptions C16_known_all_refuted.
+
+(** to_unix_timestamp(ts, 'MyCol'): session.format_time gets the str 'MyCol' in one form and, in the other, the Column
+    col('MyCol') whose normalised identifier text it formats *)
+Theorem C16_refuted_1 : exists e, In e gen_entries /\ key_eqb ("to_unix_timestamp", "standalone", 1%nat) e = true /\
+  decided gen_prims gen_table "MyCol" e = true /\ holds gen_prims gen_table "MyCol" e = false.
+Proof. apply refuted_sound. vm_compute. reflexivity. Qed.
+Print Assumptions C16_refuted_1.
+
+(** ... while the same entry holds for a lower-case bare name *)
+Example C16_refuted_1_needs_a_non_bare_name :
+  existsb (fun e => if key_eqb ("to_unix_timestamp", "standalone", 1%nat) e
+                    then holds gen_prims gen_table "c" e else false) gen_entries = true.
+Proof. vm_compute. reflexivity. Qed.
+
+Eval vm_compute in
+  (let e := mkEntry "to_unix_timestamp" "standalone" 1 [SCol "a0"; STest] in
+   (res_str gen_prims gen_table "MyCol" e, res_col gen_prims gen_table "MyCol" e)).
